@@ -50,6 +50,8 @@ FIXED += [
     ("C10", "c4b21e1", "format_size(size, '%.99999999999') (precision beyond i32) and '%.65536' (beyond the formatter's u16) panicked", ["format-precision-overflow", "format-precision-65536"]),
     ("C10", "1be6361", "day('é日本') / `modified > 'é日本'`: non-ASCII date text panicked inside chrono-english (byte-offset slicing)", ["date-function-non-ascii"]),
     ("C10", "8e50c74", "`modified > '99:99:99'`, 'apr 1 25:61', '10.70', day('12345.6'): an out-of-range time made chrono-english panic (found by the eval_total fuzz target)", ["english-date-time-out-of-range", "english-date-decimal"]),
+    ("C08", "3fbaa22", "`group by ext order by ext` with extensions that look like numbers next to ones that do not (1, 2, 10, 1x, 9a): the per-pair numeric/text comparator is not a total order - rows came out unsorted, and with ~40 such groups the sort panicked (status 101)", ["mixed-numeric-looking-keys", "mixed-numeric-looking-keys-many"]),
+    ("C02", "956b72e", "an integer column compared with a number that has a fractional part and no unit (`size < 0.5`, `length(name) > 11.6`, `size = 4096.0`): the literal was read as 0 (noticed by a round-3 seeding agent as a side remark; C02 had no decimal literals without unit)", ["decimal-literal"]),
     ("C10", "9b6a0a7", "day('2020-0\u0661-01'): the date pattern matched non-ASCII digits and the integer parse of the capture was unwrapped (found by the eval_total fuzz target after 2e7 executions)", ["date-non-ascii-digit"]),
     ("C10", "69a0b27", "`name from './[a' depth 1 rx`: a malformed pattern in a regexp search root panicked (unwrap of Regex::new)", ["regexp-root-malformed"]),
 ]
